@@ -44,15 +44,15 @@ def char_bytes(c):
 
 
 # ---------------------------------------------------------------------------------------------- str
-@contract(r'str::<impl str>::len$|^std::string::String::len$', 2)
+@contract(r'^([a-z_]+::)*str::<impl str>::len$|^std::string::String::len$', 2)
 def c_str_len(m, st, f, a): return IntV(as_str(a[0]).len, 'usize')
 
 
-@contract(r'str::<impl str>::is_empty$|^std::string::String::is_empty$', 2)
+@contract(r'^([a-z_]+::)*str::<impl str>::is_empty$|^std::string::String::is_empty$', 2)
 def c_str_is_empty(m, st, f, a): return as_str(a[0]).len == 0
 
 
-@contract(r'str::<impl str>::(as_bytes|as_str|as_ptr)$|^std::string::String::(as_str|as_bytes|as_mut_str)$|^std::string::String::into_bytes$|^std::str::from_utf8_unchecked$', 2)
+@contract(r'^([a-z_]+::)*str::<impl str>::(as_bytes|as_str|as_ptr)$|^std::string::String::(as_str|as_bytes|as_mut_str)$|^std::string::String::into_bytes$|^std::str::from_utf8_unchecked$', 2)
 def c_str_as_bytes(m, st, f, a):
     if f.endswith('into_bytes'): return vec([IntV(b, 'u8') for b in as_str(a[0]).bytes()])
     x = a[0]
@@ -164,26 +164,26 @@ def c_str_index(m, st, f, a):
     return s.slice(x, y)
 
 
-@contract(r'str::<impl str>::(get|get_mut)::<.*Range.*>$', 2)
+@contract(r'^([a-z_]+::)*str::<impl str>::(get|get_mut)::<.*Range.*>$', 2)
 def c_str_get(m, st, f, a):
     s = as_str(a[0]); x, y, ok_ = _slice_checked(m, st, s, a[1], f)
     return some(s.slice(x, y)) if ok_ else none()
 
 
-@contract(r'str::<impl str>::(get_unchecked|get_unchecked_mut)::<.*Range.*>$', 2)
+@contract(r'^([a-z_]+::)*str::<impl str>::(get_unchecked|get_unchecked_mut)::<.*Range.*>$', 2)
 def c_str_get_unchecked(m, st, f, a):
     s = as_str(a[0]); x, y, ok_ = _slice_checked(m, st, s, a[1], f)
     if not ok_: raise Panic('UB: str::get_unchecked outside bounds / char boundaries')
     return s.slice(x, y)
 
 
-@contract(r'str::<impl str>::is_char_boundary$', 2)
+@contract(r'^([a-z_]+::)*str::<impl str>::is_char_boundary$', 2)
 def c_is_char_boundary(m, st, f, a):
     s = as_str(a[0]); k = _conc_idx(m, st, a[1], s.len + 1)
     return is_boundary(s, k)
 
 
-@contract(r'str::<impl str>::(ends_with|starts_with)::<(&?&?str|&?&?std::string::String|char|&char)>$', 2)
+@contract(r'^([a-z_]+::)*str::<impl str>::(ends_with|starts_with)::<(&?&?str|&?&?std::string::String|char|&char)>$', 2)
 def c_str_ends_starts(m, st, f, a):
     s = as_str(a[0]); p = sv(a[1])
     pb = char_bytes(p) if isinstance(p, IntV) else list(as_str(p).bytes())
@@ -192,7 +192,7 @@ def c_str_ends_starts(m, st, f, a):
     return b_and(*[byte_eq(s.byte(off + i), pb[i]) for i in range(len(pb))])
 
 
-@contract(r'str::<impl str>::(char_indices|chars|bytes)$', 2)
+@contract(r'^([a-z_]+::)*str::<impl str>::(char_indices|chars|bytes)$', 2)
 def c_str_chars(m, st, f, a):
     s = as_str(a[0])
     if f.endswith('bytes'): return Iter([IntV(b, 'u8') for b in s.bytes()])
@@ -201,7 +201,7 @@ def c_str_chars(m, st, f, a):
     return Iter([Agg([IntV(i, 'usize'), c]) for i, c in cs])
 
 
-@contract(r'str::<impl str>::trim_end_matches::<(char|&str)>$', 2)
+@contract(r'^([a-z_]+::)*str::<impl str>::trim_end_matches::<(char|&str)>$', 2)
 def c_trim_end_matches(m, st, f, a):
     s = as_str(a[0]); p = a[1]
     pb = char_bytes(p) if isinstance(p, IntV) else list(as_str(p).bytes())
@@ -213,7 +213,7 @@ def c_trim_end_matches(m, st, f, a):
     return s.slice(0, n)
 
 
-@contract(r'str::<impl str>::find::<(char|&str)>$', 2)
+@contract(r'^([a-z_]+::)*str::<impl str>::find::<(char|&str)>$', 2)
 def c_str_find(m, st, f, a):
     s = as_str(a[0]); p = a[1]
     pb = char_bytes(p) if isinstance(p, IntV) else list(as_str(p).bytes())
@@ -421,6 +421,6 @@ def c_hasher_write(m, st, f, a):
     _hasher(a[0]).log.append(('write', bs)); return UNIT
 
 
-@contract(r'Hasher>::write_(u8|u16|u32|u64|usize|i32|i64)$', 3)
+@contract(r'^<.* as Hasher>::write_(u8|u16|u32|u64|usize|i32|i64)$', 3)
 def c_hasher_write_int(m, st, f, a):
     _hasher(a[0]).log.append(('write_' + f.rsplit('_', 1)[1], a[1].e)); return UNIT
